@@ -12,6 +12,20 @@ use tantivy::{DateTime, Index, IndexWriter, TantivyDocument, Term};
 
 /// documented: `tantivy::tokenizer::MAX_TOKEN_LEN` = u16::MAX - 5; longer tokens are ignored
 pub const MAX_TOKEN_LEN: usize = 65_530;
+/// documented (stacker `mutate_or_create`, postings_writer.rs `index_text`): the in-memory key of
+/// a term is limited to u16::MAX bytes; a token that does not fit after the key prefix is dropped
+pub const ARENA_KEY_MAX: usize = u16::MAX as usize;
+/// key prefix of a JSON text term: field id (4) + path id (4) + type code (1)
+pub const JSON_TEXT_KEY_PREFIX: usize = 4 + 4 + 1;
+/// longest JSON text token that is indexed; longer ones are dropped
+pub const JSON_MAX_TOKEN_LEN: usize = {
+    let room = ARENA_KEY_MAX - JSON_TEXT_KEY_PREFIX;
+    if room < MAX_TOKEN_LEN {
+        room
+    } else {
+        MAX_TOKEN_LEN
+    }
+};
 /// documented: `RemoveLongFilter::limit(40)` of the "default" analyzer keeps tokens with len < 40
 pub const DEFAULT_TOKENIZER_LIMIT: usize = 40;
 /// documented in postings_writer.rs: gap between the values of a multi-valued text field
@@ -581,7 +595,7 @@ impl SegBuilder {
                 let base = *self.json_pos[fi].entry(path.to_string()).or_insert(0);
                 let mut new_end = base;
                 for (p, w) in tokens(tok, s) {
-                    if w.len() > MAX_TOKEN_LEN {
+                    if w.len() > JSON_MAX_TOKEN_LEN {
                         continue;
                     }
                     let start = base + p;
